@@ -9,6 +9,7 @@ import numpy as np
 
 import common as C
 import fuzzylite as fl
+from streams import fld_write as S_WRITE
 
 PID = "C18"
 MODULES = ["FlVerif.Props.C18"]
@@ -178,6 +179,8 @@ def iroot_py(n, v):
 
 
 def key(case):
+    if case.get("stream"):
+        return case["stream"]
     if case.get("reader") is not None:
         return "reader"
     return f"{case['scope']} n={case['n']}"
@@ -185,6 +188,8 @@ def key(case):
 
 def oracle(case):
     """property oracle, independent of Lean: grid size, equidistant values from minimum to maximum, lexicographic order"""
+    if case.get("stream"):
+        return S_WRITE.oracle(case)       # control flow of FldExporter.write on a recording stub
     if case.get("reader") is not None:
         return oracle_reader(case)
     e, text = export_scope(case)
@@ -369,6 +374,8 @@ def correspond(ctx):
         ok, detail = oracle(case) if kept else (True, "")
         if not ok:
             mism.append({"case": case, "violation": True, "detail": detail, "what": detail})
+    # the control flow of FldExporter.write against Op.Fld.write (model of the code tie), both on a recording stub
+    mism += S_WRITE.run(ctx)
     return mism
 
 
